@@ -484,6 +484,12 @@ def name_like_tokens(rng, case):
     delayed = [f[0] for f in defs if f[1].get('delayed')]
     if delayed and r < 0.93:
         return rng.choice(delayed) + rng.choice([':x', ':sub:y', ':'])
+    if r < 0.905:
+        # unknown names made of the metacharacters of both string-formatting styles: the not-found diagnostic
+        # interpolates the user-supplied name
+        base = rng.choice(names)
+        return rng.choice([base + '{}', '{' + base + '}', base + ':{x86,arm}', base + '}', '{' + base, '{0}', '{}', '%s',
+                           base + '%(x)s', '%d%%', '{bin_name}', '{not_found}', base + '{0.__class__}'])
     if r < 0.93:
         base = rng.choice(names)
         return rng.choice(['nosuch', base + 'x', base[:-1] or 'zz', '?' * len(base), base + ':nosub', base.upper(),
